@@ -11,6 +11,8 @@
 (*    bound size.                                                          *)
 (* 3. No size / offset computation overflows (an overflow-checked build    *)
 (*    turns that into a panic whose message says so).                      *)
+(* 4. Values handed out by a merger are never read from freed memory, also *)
+(*    after a call has returned an error (freed memory is poisoned).       *)
 (***************************************************************************)
 EXTENDS Integers
 
@@ -28,4 +30,11 @@ BookkeepingOk(a) ==
     /\ a.nb >= 0 /\ a.elen >= 0
 
 NoOverflow(r) == ~r.overflow
+
+\* 4. Borrowed values stay live: the monitoring allocator fills freed memory with a byte pattern no
+\*    stored value contains, so a value handed to the merge function (or yielded) that shows a run
+\*    of it was read from freed memory.  Stated for a merger whose merge function failed once and
+\*    whose caller keeps pulling: nothing is specified about WHAT comes out then, only that it is
+\*    live memory.
+LiveValuesOk(e) == e.poisoned = 0
 =============================================================================
